@@ -955,7 +955,35 @@ def sc_gather(r):
 """, n=n)]
 
 
+def sc_dup_stream_collected(r):
+    """a stream whose descriptor was duplicated (ev/to-file) is closed and/or dropped; the duplicate keeps
+    the open file - and with it an epoll registration naming the stream - alive.  Activity on the file after
+    the stream has been collected must not reach the freed stream (found as a crash in a C18 soak run;
+    repaired in /repo by 020da70)."""
+    variant = r.choice(["drop", "drop", "close-then-drop", "close-write-end"])
+    closes = {"drop": "", "close-then-drop": "(ev/close rs) (ev/close ws)", "close-write-end": "(ev/close ws)"}[variant]
+    return [T(r"""
+(var keep nil)
+(defn mk []
+  (def [rs ws] (os/pipe))
+  (set keep [(ev/to-file rs) (ev/to-file ws)])
+  $closes
+  nil)
+(mk)
+(churn $k)
+(file/write (keep 1) "$payload") (file/flush (keep 1))
+(ev/sleep 0.001)
+(churn $k2)
+(emit "dup" (file/read (keep 0) $n))
+(file/close (keep 1))
+(ev/sleep 0.001)
+(file/close (keep 0))
+(ev/sleep 0)
+""", closes=closes, k=r.randint(1, 8), k2=r.randint(0, 4), payload="x" * r.randint(1, 40), n=1)]
+
+
 SCENARIOS = {
+    "dup_stream_collected": sc_dup_stream_collected,
     "env_dead_fiber": sc_env_dead_fiber,
     "env_suspended_fiber": sc_env_suspended_fiber,
     "env_loop_closures": sc_env_loop_closures,
